@@ -242,7 +242,7 @@ func caseVariants(rng *gen.RNG, name string, n int) []string {
 
 // largeNumberStrings: numeric fields written with many digits (2^32+k, 2^63±, 2^64+k, 10^19 …).
 func largeNumberStrings(emit func(name, class string)) {
-	nums := []string{"4294967302", "4294967326", "9223372036854775807", "9223372036854775808", "9223372036854775814", "18446744073709551615", "18446744073709551616",
+	nums := []string{"262", "266", "518", "65542", "65546", "4294967302", "4294967326", "9223372036854775807", "9223372036854775808", "9223372036854775814", "18446744073709551615", "18446744073709551616",
 		"18446744073709551622", "18446744073709551646", "36893488147419103238", "99999999999999999999", "340282366920938463463374607431768211462", "00000000000000000006", "0000000000000000000000030"}
 	// numbers that fit the machine word themselves but whose product with the unit (60, 3600) does not, chosen so that
 	// the wrapped product is a small positive value: ceil(k*2^w / unit) for w = 31, 32, 63, 64
